@@ -281,7 +281,7 @@ def parse_concrete_vals(out):
 def build_replay(repo, d, target):
     e = env()
     e["CARGO_TARGET_DIR"] = target + "-native"
-    p = subprocess.run(["cargo", "build", "--offline", "--bin", "replay"], cwd=d, env=e, capture_output=True, text=True, timeout=1800)
+    p = subprocess.run(["cargo", "build", "--offline", "--bin", "replay", "--features", "xnative"], cwd=d, env=e, capture_output=True, text=True, timeout=1800)
     if p.returncode != 0:
         return None, p.stderr[-2000:]
     return os.path.join(target + "-native", "debug", "replay"), ""
